@@ -41,7 +41,10 @@ package tparsetime
 //@   loop 1: invariant 1 <= i && i <= len(s) && (forall j int :: 1 <= j && j < i ==> isdig(s[j]))
 //@   loop 1: decreases len(s) - i
 
+// (flag permanentkeys: every key stored in the zone cache must be a permanent copy - the time string is a view into the
+// record's pooled buffer, C12)
 //@ func parseRFC3339Timestamp(timeStr string, timezoneCache map[string]*time.Location) (time.Time, error)
+//@   flag permanentkeys
 //@   requires cacheok(timezoneCache)
 //@   modifies timezoneCache
 //@   ensures  cacheok(timezoneCache)
